@@ -63,9 +63,20 @@ def medium(scene):
     return (bare + sub) if sub is not None else bare
 
 
+def refl_resolve(a):
+    """JSON-able specular_reflection: a number, {"$fn": [a, b]} = the function theta -> a + b (theta / 90 deg)^2 of the angle in radians,
+    or a {"V": ..., "H": ...} dictionary of those"""
+    if isinstance(a, dict) and "$fn" in a:
+        c0, c1 = a["$fn"]
+        return lambda theta: c0 + c1 * (np.asarray(theta) / (np.pi / 2)) ** 2
+    if isinstance(a, dict):
+        return {k: refl_resolve(v) for k, v in a.items()}
+    return a
+
+
 def make_reflector(s):
     from smrt.substrate.reflector import make_reflector as mk
-    return mk(temperature=s["T"], specular_reflection=s["params"]["specular_reflection"])
+    return mk(temperature=s["T"], specular_reflection=refl_resolve(s["params"]["specular_reflection"]))
 
 
 def random_scene(rng, nlayer=None, lossless=False, isothermal=None, substrate="random", atmosphere=False,
